@@ -59,6 +59,11 @@ pub fn generate(tier: &str, rng: &mut Prng) -> Vec<Case> {
             }
         }
         push(format!("felt_batch_inv {}", ints(&v)));
+        // pointwise division by the same vector (zero slots give zero there and nowhere else)
+        if len > 0 {
+            let a: Vec<i64> = (0..len).map(|_| if rng.chance(1, 8) { 0 } else { rng.range(0, Q - 1) }).collect();
+            push(format!("felt_hadamard_div {} {}", ints(&a), ints(&v)));
+        }
     }
     // non-canonical representatives (no property claim, model/implementation agreement only)
     for _ in 0..200 {
@@ -127,7 +132,7 @@ fn applicable(op: &[&str]) -> bool {
         "felt_add" | "felt_sub" | "felt_mul" | "felt_multiply" => canon(op[1]) && canon(op[2]),
         "felt_div" => canon(op[1]) && canon(op[2]) && op[2] != "0",
         "felt_neg" | "felt_inv" | "felt_balanced" | "felt_value" => canon(op[1]),
-        "felt_batch_inv" => true,
+        "felt_batch_inv" | "felt_hadamard_div" => true,
         _ => false,
     }
 }
@@ -210,6 +215,11 @@ fn check(op: &[&str], out: &str) -> Option<String> {
                 "felt_balanced" => expect(balanced_ref(a).to_string()),
                 _ => expect(a.to_string()),
             }
+        }
+        "felt_hadamard_div" => {
+            let (a, b): (Vec<i64>, Vec<i64>) = (parse_ints(op[1]), parse_ints(op[2]));
+            let e: Vec<i64> = a.iter().zip(b.iter()).map(|(&x, &y)| if y == 0 { 0 } else { x * powmod(y, Q - 2) % Q }).collect();
+            expect(ints(&e))
         }
         "felt_batch_inv" => {
             let v: Vec<i64> = parse_ints(op[1]);
